@@ -20,7 +20,7 @@ LEVEL = {
     "C12": ("proof", "Theorems C12_prebind / C12_provided_sizes_belong_to_the_assignment / C12_bad_provider / C12_self_needs_method / C12_consulted_every_call + histories with changing provider values (fresh / long-lived dict, rebinding / in place), self providers, objects without the protocol." + CORR, "DESIGN.md 7 C12"),
     "C13": ("proof", "Theorems C13_identity / C13_explicit_wins / C13_environment for every environment string, enabled argument and decorator kind + every combination of DLTYPE_DISABLE x DLTYPE_DEBUG_MODE x logging level in fresh interpreters on a fixed corpus; pydantic-settings' bool table is trusted and probed.", "DESIGN.md 7 C13"),
     "C14": ("proof", "Theorems C14_class_forms_queue_like_functions / C14_pydantic_is_one_context / C14_field_validation_is_assert_one + the same field list rendered as function, dataclass, NamedTuple and pydantic model with shuffled keyword order." + CORR, "DESIGN.md 7 C14"),
-    "C15": ("proof", "Finite theorem C15_shared_dtypes_library_independent over the regenerated tables; that check / context read an array only through its shape and dtype verdict is visible in the model's definitions and tested: every context under three library assignments + exhaustive class x shared dtype x library sweep." + CORR, "DESIGN.md 7 C15"),
+    "C15": ("proof", "Finite theorem C15_shared_dtypes_library_independent over the regenerated tables + structural theorems C15_relabelling_changes_nothing / C15_queue_level (Relabel.v: a checked call reads arrays only through shape and the class tables' answers). Correspondence: every context under three library assignments and once with arrays produced another way (layouts, strides, flags, subclasses, torch Parameter / meta, jax tracers) + exhaustive class x shared dtype x library sweep." + CORR, "DESIGN.md 7 C15"),
     "C16": ("proof", "PARTIAL. Proved: C16_exception_passthrough, C16_value_passthrough. Name/doc/signature, argument forwarding for 9 signature shapes, exception identity, method kinds, NamedTuple / 7 dataclass option sets (fields, equality, repr, isinstance, immutability, pickling) are CPython object-model behaviour without decision logic: compared against undecorated twins (a test, labelled as such).", "DESIGN.md 7 C16"),
     "C17": ("proof", "PARTIAL. Theorems C17_field_order / C17_fresh_context_per_validation / C17_optional_none_skipped / C17_assignment_refuted (= known finding K2) + histories of constructions / model_validate / assignments, nested models, class-definition dtype cross-check; model_dump / iteration / repr compared by the harness only." + CORR, "DESIGN.md 7 C17"),
     "C18": ("proof", "Theorem C18_symbolic: for every tree Python's operators can build (non-negative constants) the printed string is accepted and evaluates to the tree's own arithmetic value (SymbolicProof.embed_correct + decimal round trip + C05). Correspondence: trees built by Python's evaluation of generated source; demanded size vs plain integer evaluation; K4 listed." + CORR, "DESIGN.md 7 C18"),
@@ -29,7 +29,8 @@ LEVEL = {
 }
 TECH = {p: "Coq 8.16 proof about a hand-written executable model + extracted-model/implementation correspondence (differential execution)" for p in LEVEL}
 TECH["C13"] = "Coq 8.16 theorems over the configuration model + exhaustive fresh-interpreter correspondence"
-TECH["C04"] = TECH["C15"] = TECH["C20"] = "Coq 8.16 finite theorem (vm_compute) over tables regenerated from the running code + exhaustive correspondence"
+TECH["C15"] = "Coq 8.16 proof about a hand-written executable model (structural relabelling theorem) + finite theorem (vm_compute) over tables regenerated from the running code + extracted-model/implementation correspondence"
+TECH["C04"] = TECH["C20"] = "Coq 8.16 finite theorem (vm_compute) over tables regenerated from the running code + exhaustive correspondence"
 NOTE = "Trusted: Coq kernel; extraction (ExtrOcamlBasic/ExtrOcamlString) and ocaml/driver.ml; harness generators and canonicalisation; the hand-written model is tied to /repo only behaviourally (DESIGN.md 5, 9)."
 
 
